@@ -32,7 +32,7 @@ INT_BOUNDS = (0, 1, 2 ** 15, 2 ** 16 - 1, 2 ** 16, 2 ** 31, 2 ** 32 - 1)
 ASN2 = (1, 0, 2 ** 15, 2 ** 16 - 1, 23456)
 ASN4 = ASN2 + (2 ** 16, 2 ** 31, 2 ** 32 - 1)
 IP4_BOUNDS = ('10.0.0.1', '0.0.0.0', '0.0.0.1', '127.255.255.255', '128.0.0.0', '255.255.255.255')
-SEG_LENGTHS = (0, 1, 2, 63, 64, 127, 128, 255)
+SEG_LENGTHS = (0, 1, 2, 63, 64, 127, 128, 255, 256, 600)      # 256, 600: more than one segment can count (must be refused, or split correctly)
 LABELS = (0, 1, 3, 15, 16, 524288, 2 ** 20 - 1)      # 524288: its wire form 0x800000 is also the "no label" filler of withdrawals
 BASE_ATTR = {1: 0, 2: [(2, [64512])], 3: '192.0.2.1'}
 WK_NAMES = tuple(n for _, n in upd.WELL_KNOWN_COMMUNITIES)
